@@ -17,9 +17,9 @@ FORMULAS = ["StartOnlyEstablished", "CondTruth.Running", "CondTruth.Watches(.Run
             "AfterReconcile.Version(.StaleRecord)", "AfterReconcile.TypeRef(.StaleRecord)", "AfterReconcile.Cond",
             "AfterReconcile.Finalizer", "Quiescent", "NoDeadlock"]
 # (cfg suffix, scenarios replayed)
-QUICK = [("quick_ver", 700), ("quick_faults", 800), ("quick_third", 500), ("quick_claim", 600)]
-THOROUGH = [("quick_ver", 10 ** 7), ("quick_faults", 10 ** 7), ("quick_third", 10 ** 7), ("quick_claim", 10 ** 7),
-            ("thorough_ver", 14000), ("thorough_faults", 14000), ("thorough_third", 10000), ("thorough_mixed", 12000)]
+QUICK = [("quick_ver", 600), ("quick_faults", 700), ("quick_third", 400), ("quick_claim", 500), ("quick_recreate", 500)]
+THOROUGH = [("quick_ver", 10 ** 7), ("quick_faults", 10 ** 7), ("quick_third", 10 ** 7), ("quick_claim", 10 ** 7), ("quick_recreate", 6000),
+            ("thorough_ver", 10000), ("thorough_faults", 12000), ("thorough_third", 8000), ("thorough_mixed", 8000), ("thorough_recreate", 8000)]
 # design-level witnesses: (cfg suffix, invariants that MUST be violated)
 WITNESS = [("witness_guard", ["Safe"]),       # the "wait until Established" guard switched off -> StartOnlyEstablished
            ("witness_asis", ["Converges"])]   # the code as written does not converge after a failed status update / StartWatches (D16, D17)
